@@ -3,8 +3,9 @@ CONSTANTS
   NU = 4
   ND = 3
   NT = 5
-  Kinds = {"ug", "dg", "tree"}
+  Kinds = {"ug", "dg", "tree", "grid"}
 INVARIANT ReachConsistent
 INVARIANT TreeIffUnique
 INVARIANT TreeDepthIsDistance
 INVARIANT PrimIsMST
+INVARIANT GridIsLattice
